@@ -6,6 +6,7 @@ package main
 // events in the same order across save and restart.
 
 import (
+	vfhook "github.com/Cloud-Foundations/keymaster/zz_vfhook"
 	"bufio"
 	"bytes"
 	"crypto/x509"
@@ -159,8 +160,19 @@ func init() {
 
 func eventsSetup(w *vfWorld) {
 	w.detectBlocked = true
+	// "each event is in the stream no later than the response": the notifier is handed a certificate while no
+	// request is being served (sequential steps only) = it was published after its response had been completed
+	vfhook.EventPublishCert = func(certType string, certData []byte) {
+		if w.sched.concur || w.cur != nil {
+			return
+		}
+		w.latePublishes.Add(1)
+	}
 	w.observers = append(w.observers, func(p *vfPrepared, ctx *vfReqCtx, resp *vfResp) {
 		synctest.Wait()
+		if n := w.latePublishes.Swap(0); n > 0 && p.step.Par == 0 {
+			w.violate("C20", "published-after-response", "published-after-response:"+p.step.Op, fmt.Sprintf("%d certificate event(s) reached the notifier only after the response of %s had been completed", n, p.step.Op))
+		}
 		if p.call != nil && p.call.blocked {
 			w.violate("C20", "issuance-blocked", "issuance-blocked:"+p.step.Op, fmt.Sprintf("%s did not complete within 120 simulated seconds while a subscriber was not reading", p.step.Op))
 			return
